@@ -491,9 +491,18 @@ func (ex *Exec) stmtChecks(s ast.Stmt) {
 		}
 		g, ok := ex.specTry(sc, cc.Req)
 		if !ok {
+			if cc.Lemma {
+				continue
+			}
 			lab += ":not-evaluable"
 		}
+		n0 := len(ex.obls)
 		ex.assert(kind, "at["+lab+"]", g)
+		if cc.Lemma {
+			for _, o := range ex.obls[n0:] {
+				o.LemmaStep = true
+			}
+		}
 	}
 }
 
